@@ -112,10 +112,11 @@ PROPS['C10'] = {
                   ('support.FBP', {'match': [r'^step', r'^inv', r'^bounds', r'^nil', r'^nilchan']}),
                   ('support.TBE', {'match': [r'^callsite']}),
                   'support.NormalizeTransferDistancesByDepth',
-                  '(*tree.Edge).HashCode', '(*tree.Tree).CompareTipIndexes'],
+                  '(*tree.Edge).HashCode', '(*tree.Tree).CompareTipIndexes',
+                  ('support.minTransferDistRecur', {'match': [r'^post', r'^callsite', r'^inv']})],
     'trusted_base': TB_COMMON,
     'assumptions': A_COMMON,
-    'not_decided': ['transfer distance = minimum Hamming distance (minTransferDistRecur)', 'TBE >= FBP and range lemmas', 'order independence of floating-point sums (A-FP)'],
+    'not_decided': ['transfer distance = minimum Hamming distance (minTransferDistRecur: monotonicity of the recorded minimum and the early-stop discipline are proved; the ones-count recurrence and its run-time safety are not)', 'TBE >= FBP and range lemmas', 'order independence of floating-point sums (A-FP)'],
 }
 
 PROPS['C07'] = {
